@@ -221,6 +221,7 @@ func (txn *Txn) WithUnion(columns ...string) *Txn {
 
 	// range & lock over each available chunk
 	for chunk := commit.Chunk(0); chunk <= limit; chunk++ {
+		simYield(txn.owner, simBeforeRLock, uint32(chunk))
 		lock.RLock(uint(chunk))
 
 		// reset entire bitmap
@@ -366,6 +367,7 @@ func (txn *Txn) insert(fn func(Row) error, expireAt int64) (uint32, error) {
 
 	// At a new index, add the insertion marker
 	idx := txn.owner.next()
+	simYield(txn.owner, simAfterReserve, idx)
 	txn.bufferFor(rowColumn).PutOperation(commit.Insert, idx)
 
 	// If there was an error during insertion, free the index so it can be re-used
@@ -443,6 +445,7 @@ func (txn *Txn) InsertKey(key string, fn func(Row) error) error {
 		return fmt.Errorf("column: key '%s' already exists at offset %d", key, idx)
 	}
 
+	simYield(txn.owner, simKeyChecked, 0)
 	// If not found, insert at a new index
 	idx, err := txn.insert(fn, 0)
 	txn.bufferFor(txn.owner.pk.name).PutString(commit.Put, idx, key)
@@ -459,6 +462,7 @@ func (txn *Txn) UpsertKey(key string, fn func(Row) error) error {
 		return txn.QueryAt(idx, fn)
 	}
 
+	simYield(txn.owner, simKeyChecked, 0)
 	// If not found, insert at a new index
 	idx, err := txn.insert(fn, 0)
 	txn.bufferFor(txn.owner.pk.name).PutString(commit.Put, idx, key)
@@ -531,12 +535,14 @@ func (txn *Txn) commit() {
 			txn.commitMarkers(chunk, fill, markers)
 		}
 
+		simYield(txn.owner, simMidCommit1, uint32(chunk))
 		// Attemp to update, if nothing was changed we're done
 		updated := txn.commitUpdates(chunk)
 		if !changedRows && !updated {
 			return
 		}
 
+		simYield(txn.owner, simMidCommit3, uint32(chunk))
 		// If there is a pending snapshot, append commit into a temp log
 		if dst, ok := txn.owner.isSnapshotting(); ok {
 			dst.Append(commit.Commit{
@@ -576,6 +582,7 @@ func (txn *Txn) commitUpdates(chunk commit.Chunk) (updated bool) {
 			columns[0].Apply(chunk, r)
 		})
 
+		simYield(txn.owner, simMidCommit2, uint32(chunk))
 		// Range through all of the computed columns and apply the final state updates.
 		if len(columns) > 1 {
 			txn.reader.Range(u, chunk, func(r *commit.Reader) {
